@@ -16,6 +16,7 @@
    (see DESIGN.md, C16). *)
 From Coq Require Import NArith List.
 From LC Require Import Fetch RunC02 FetchProofs.
+From LC Require Import Store TxPairing TxPairingProofs.
 Import ListNotations.
 Open Scope N_scope.
 
@@ -64,3 +65,28 @@ Example C16_rejected_answer_releases_request :
               FE_blocks_proof 1 (mkBM 9 200 false [8] [] true 0 true)] in
   to_fetch (ms_th s) = [7].
 Proof. vm_compute. reflexivity. Qed.
+
+(* ---- "committed in block X" (second sentence of C16) ----
+   Model/TxPairing.v: the two maps get_transaction_with_header goes through (TxHash -> block NUMBER, BlockNumber -> block
+   hash), written by filter_block and the fetch handlers, untouched by rollback_to_block.
+   - [C16_pairing_truthful_without_height_reuse]: as long as no block number is written twice, the block reported for a
+     transaction is a block that was stored with that transaction.
+   - [C16_pairing_refuted] (KNOWN FINDING C16-transaction-paired-with-wrong-block): after a fork switch the new branch's
+     block is written under a number the abandoned branch's block already used; the abandoned block's transaction is then
+     reported as committed in the new block, which does not contain it.  Replayed on the implementation by the oracle of
+     op c08 (class C16-transaction-paired-with-wrong-block). *)
+Theorem C16_pairing_truthful_without_height_reuse :
+  forall hist t bh,
+    NoDup (numbers hist) ->
+    reported_block (run_index hist) t = Some bh ->
+    exists bn ts, In (bh, bn, ts) hist /\ In t ts.
+Proof. exact pairing_truthful. Qed.
+Print Assumptions C16_pairing_truthful_without_height_reuse.
+
+Theorem C16_pairing_refuted :
+  exists hist t bh, reported_block (run_index hist) t = Some bh /\ forall bn ts, In (bh, bn, ts) hist -> ~ In t ts.
+Proof.
+  exists [(1001, 30, [7]); (2001, 30, [8])], 7, 2001. split; [vm_compute; reflexivity|].
+  intros bn ts [H|[H|[]]]; inversion H; subst; intros [E|[]]; discriminate.
+Qed.
+Print Assumptions C16_pairing_refuted.
